@@ -49,9 +49,9 @@ func c10Check(res *vh.Result, cfg *icCfg) func(r *icRun, x *vrt.Sched, cost int)
 			}
 			// invoked after Close had returned
 			switch c.Op.Kind {
-			case "get":
+			case "get", "hget":
 				if c.OK {
-					viol("get-hit-after-close", "get", fmt.Sprintf("Get(%d) returned %d after Close", c.Op.K, c.Got))
+					viol("get-hit-after-close", c.Op.Kind, fmt.Sprintf("%s(%d) returned %d after Close", c.Op.Kind, c.Op.K, c.Got))
 				}
 			case "lget":
 				if c.OK || c.Err != ErrCacheClosed.Error() {
@@ -149,6 +149,9 @@ func c10Drivers() []*icCfg {
 		{Name: "D9b-close-vs-views", O: q2, Pre: []icOp{S(1)}, Scripts: [][]icOp{{{Kind: "est"}, {Kind: "stats"}, {Kind: "len"}}, {S(2)}, {C}}, Post: epi},
 		{Name: "D10-hybrid-lookup-delete", O: hOpts{MaxSize: 1, ChanSize: 2, BufSize: 2}, Hy: &hyIcCfg{Workers: 1, Prob: 1}, Pre: []icOp{S(1), S(2), W},
 			Scripts: [][]icOp{{{Kind: "hget", K: 1}, {Kind: "hdel", K: 1}}, {C}}, Post: []icOp{{Kind: "est"}, G(1), S(3), {Kind: "len"}, W}},
+		// a key that lives in the secondary tier only, looked up through the plain hybrid Get after Close has returned
+		{Name: "D10d-hybrid-get-after-close", O: hOpts{MaxSize: 1, ChanSize: 2, BufSize: 2}, Hy: &hyIcCfg{Workers: 1, Prob: 1}, Pre: []icOp{S(1), S(2), W},
+			Scripts: [][]icOp{{{Kind: "hget", K: 2}}, {C}}, Post: []icOp{{Kind: "hget", K: 1}, {Kind: "est"}, G(1), {Kind: "len"}, W}},
 		{Name: "D10b-hybrid-loading", O: hOpts{MaxSize: 1, ChanSize: 2, BufSize: 2}, Hy: &hyIcCfg{Workers: 1, Prob: 1}, Loading: true, LoadCost: 1, Pre: []icOp{L(1), L(2), W},
 			Scripts: [][]icOp{{L(1)}, {C}}, Post: []icOp{{Kind: "est"}, G(1), S(3), {Kind: "len"}, W}},
 		// "every call terminates" without any Close to rescue a parked caller: concurrent Wait callers with writers and a size poller
